@@ -45,6 +45,19 @@ def norm(v: t.Any) -> t.Any:
     return v
 
 
+def first_diff(got: t.Any, exp: t.Any) -> t.Tuple[t.Any, t.Any]:
+    """Innermost first position where two normalised values differ."""
+    if isinstance(got, tuple) and isinstance(exp, tuple) and len(got) == len(exp):
+        for g, e in zip(got, exp):
+            if g != e:
+                return first_diff(g, e)
+    if isinstance(got, dict) and isinstance(exp, dict) and set(got) == set(exp):
+        for k in got:
+            if got[k] != exp[k]:
+                return first_diff(got[k], exp[k])
+    return got, exp
+
+
 def contains_bad(v: t.Any) -> t.Optional[str]:
     """Does a value (recursively through provenance) contain an exception instance or a Recurrent marker?"""
     tn = type(v).__name__
@@ -162,6 +175,9 @@ def m_outcome(x, ref: RefResult, rid: int = 0, strict_error: bool = True) -> t.L
             return []
         if norm(oc[1]) != exp[1]:
             bad = contains_bad(oc[1])
+            g, e = first_diff(norm(oc[1]), exp[1])
+            if not bad and g is None and e is not None:
+                bad = 'none-in-value'
             return [(bad or 'wrong-value', f'run returned {norm(oc[1])!r}; reference value {exp[1]!r}')]
         return []
     # error result
@@ -220,7 +236,12 @@ def m_kwargs(x, ref: RefResult, spec: dict, rid: int = 0, inputs: t.Optional[dic
         ri = refinv.get((n, i))
         if ri is not None and 'value' not in ref.silent:
             if norm(kw) != ri.kwargs and not any(contains_bad(v) for v in kw.values()):
-                out.append(('wrong-kwarg-value', f'{n}#{i} received {norm(kw)!r}; reference {ri.kwargs!r}'))
+                nk = norm(kw)
+                g, e = first_diff(nk, ri.kwargs)
+                if g is None and e is not None:
+                    out.append(('none-as-kwarg', f'{n}#{i} received a None placeholder (possibly nested) in {nk!r}; reference {ri.kwargs!r}'))
+                else:
+                    out.append(('wrong-kwarg-value', f'{n}#{i} received {nk!r}; reference {ri.kwargs!r}'))
         for p_kw, kind, arg in nd['params']:
             if kind == 'in':
                 if not any(p < pos for p in ended_before.get(arg, [])):
